@@ -94,6 +94,20 @@ func (r *rec) put(e ev) {
 	r.evs = append(r.evs, e)
 }
 
+// stuck: the last 256 callbacks concerned at most two distinct points - the routine repeats itself
+// (as opposed to a run that is merely slow: it keeps visiting new points).
+func (r *rec) stuck() bool {
+	n := len(r.evs)
+	if n < 256 {
+		return false
+	}
+	seen := map[int]bool{}
+	for _, e := range r.evs[n-256:] {
+		seen[e.P] = true
+	}
+	return len(seen) <= 2
+}
+
 func (r *rec) eval(p, y, g []float64) {
 	r.nEval++
 	if r.keepPts {
